@@ -154,7 +154,7 @@ func genPackTree(rng *Rng, risky bool) (*TNode, bool, string) {
 		"chain": tlink("chain2"), "chain2": tlink("f"),
 		"d": tdir(0o755, map[string]*TNode{"g": tfile("outside-g", 0o644), "h": tdir(0o755, map[string]*TNode{"i": tfile("i", 0o644), "back": tlink("../../../src/a")}),
 			"nest": tlink("../../src-sib"),
-			"in": tlink("g"), "up": tlink("../f")}),
+			"in":   tlink("g"), "up": tlink("../f")}),
 	})
 	outside.Kids["f"].Mtime, outside.Kids["f"].MtimeN = 1300000000, 500000000
 	if risky {
